@@ -1107,23 +1107,33 @@ func (m *Model) ruleREGISTRY(r *Results) {
 		}
 	}
 	// (d) Close is idempotent: unregister reachable only when the handle was not closed before, flag set under the lock
-	var unreg *ssa.Function
+	// the registry methods that shut the store down, themselves or through a helper of the registry
+	unregs := map[*ssa.Function]bool{}
 	for _, fn := range m.Funcs {
-		if isRegMethod(fn) {
-			calls := false
-			m.eachCall(fn, func(c ssa.CallInstruction) {
-				if c.Common().StaticCallee() == a.ShutdownFn {
-					calls = true
+		if isRegMethod(fn) && fn.Parent() == nil {
+			for g := range m.reachableLocal(fn) {
+				if g != fn && !isRegMethod(g) {
+					continue
 				}
-			})
-			if calls {
-				unreg = fn
+				m.eachCall(g, func(c ssa.CallInstruction) {
+					if c.Common().StaticCallee() == a.ShutdownFn {
+						unregs[fn] = true
+					}
+				})
 			}
 		}
 	}
-	if unreg == nil {
+	if len(unregs) == 0 {
 		r.undecided(rule, "unregister", "-", "no registry method shuts the store down")
 		return
+	}
+	callsUnreg := func(f *ssa.Function) bool {
+		for u := range unregs {
+			if m.staticallyCalls(f, u) {
+				return true
+			}
+		}
+		return false
 	}
 	nClose := 0
 	for _, fn := range m.Funcs {
@@ -1133,7 +1143,7 @@ func (m *Model) ruleREGISTRY(r *Results) {
 		var call ssa.CallInstruction
 		m.eachCall(fn, func(c ssa.CallInstruction) {
 			callee := c.Common().StaticCallee()
-			if callee == unreg || callee != nil && m.inPkg(callee) && callee.Signature.Recv() == nil && m.staticallyCalls(callee, unreg) {
+			if unregs[callee] || callee != nil && m.inPkg(callee) && callee.Signature.Recv() == nil && callsUnreg(callee) {
 				call = c
 			}
 		})
@@ -1160,7 +1170,7 @@ func (m *Model) ruleREGISTRY(r *Results) {
 		// flag set under the lock (in Close itself or in a helper it calls)
 		setLocked := false
 		for g := range m.reachableLocal(fn) {
-			if g == unreg || m.methodOwner(g) == reg {
+			if unregs[g] || m.methodOwner(g) == reg {
 				continue
 			}
 			for _, b := range g.Blocks {
@@ -1216,7 +1226,17 @@ func (m *Model) ruleREGISTRY(r *Results) {
 				root = root.Parent()
 			}
 			// only the functions that mark a handle closed on behalf of a release (Close), not constructors
-			releases := func(f *ssa.Function) bool { return m.reachableLocal(f)[unreg] || m.staticallyCalls(f, unreg) }
+			releases := func(f *ssa.Function) bool {
+				if callsUnreg(f) {
+					return true
+				}
+				for g := range m.reachableLocal(f) {
+					if unregs[g] {
+						return true
+					}
+				}
+				return false
+			}
 			okRoot := releases(root)
 			if !okRoot {
 				// a helper (markClosed) of a function that releases
@@ -1358,7 +1378,15 @@ func (m *Model) ruleSHUTDOWN(r *Results) {
 		}
 		if callee := cc.StaticCallee(); callee != nil && m.inPkg(callee) {
 			stops := false
-			for f := range m.reachableLocal(callee) {
+			reach := m.reachHybrid(callee, false)
+			for _, e := range m.calleesOf(fn) {
+				if e.Site == c && e.Lexical {
+					for f := range m.reachHybrid(e.Callee, false) {
+						reach[f] = true
+					}
+				}
+			}
+			for f := range reach {
 				m.eachCall(f, func(c2 ssa.CallInstruction) {
 					if isMethodCall(c2.Common(), "time", "Timer", "Stop") {
 						stops = true
